@@ -223,12 +223,14 @@ class QueueOutOfOrder(TemplateException):
 class ResetComplete(TemplateException):
     code = 128
     template = "reset_complete.md"
+    dont_repeat_if_in_history = 0  # allow repeating if requested by user
 
 
 class LossyResetWarning(TemplateException):
     code = 129
     template = "lossy_reset.md"
     status = "failure"
+    dont_repeat_if_in_history = 0  # allow repeating if requested by user
 
 
 class IncorrectCommandSyntax(TemplateException):
